@@ -559,6 +559,21 @@ class _Canon(ast.NodeTransformer):
             return ast.Compare(left=t.left, ops=[flip[type(t.ops[0])]()], comparators=t.comparators)
         return ast.UnaryOp(op=ast.Not(), operand=t)
 
+    _MUTATORS = {"append", "extend", "insert", "pop", "remove", "clear", "sort", "reverse", "add", "update", "discard", "popitem", "setdefault", "resize", "fill", "put"}
+
+    def _mutates(self, stmts, seq) -> bool:
+        """does the loop body change the sequence it iterates (element iteration and index iteration then differ)?"""
+        sd = ast.dump(seq)
+        for z in stmts:
+            for y in ast.walk(z):
+                if isinstance(y, ast.Call) and isinstance(y.func, ast.Attribute) and ast.dump(y.func.value) == sd and (y.func.attr in self._MUTATORS or y.func.attr.endswith("_")):
+                    return True
+                if isinstance(y, (ast.Subscript, ast.Attribute)) and isinstance(y.ctx, (ast.Store, ast.Del)) and ast.dump(y.value) == sd:
+                    return True
+                if isinstance(y, ast.AugAssign) and ast.dump(y.target) == sd:
+                    return True
+        return False
+
     def _block(self, body: list, fn_loads_after) -> list:
         """One block, already canonical inside.  Each rewrite is an equivalence of Python programs under the stated condition."""
         out = []
@@ -622,7 +637,7 @@ class _Canon(ast.NodeTransformer):
                 rest = st.body[1:] or [ast.Pass()]
                 root = _dotted(seq).split(".")[0]
                 rebinds = any(isinstance(y, ast.Name) and y.id in (root, x, j) and isinstance(y.ctx, ast.Store) for z in rest for y in ast.walk(z))
-                if not rebinds:
+                if not rebinds and not self._mutates(rest, seq):
                     j_used = any(isinstance(y, ast.Name) and y.id == j for z in rest for y in ast.walk(z)) or j in fn_loads_after(st)
                     if j_used:
                         tgt = ast.Tuple(elts=[ast.Name(id=j, ctx=ast.Store()), ast.Name(id=x, ctx=ast.Store())], ctx=ast.Store())
@@ -639,7 +654,7 @@ class _Canon(ast.NodeTransformer):
                 root = _dotted(seq).split(".")[0]
                 subs = [y for z in st.body for y in ast.walk(z) if isinstance(y, ast.Subscript) and ast.dump(y.value) == sd and isinstance(y.slice, ast.Name) and y.slice.id == j]
                 rebinds = any(isinstance(y, ast.Name) and y.id in (root, j) and isinstance(y.ctx, ast.Store) for z in st.body for y in ast.walk(z))
-                if subs and all(isinstance(y.ctx, ast.Load) for y in subs) and not rebinds:
+                if subs and all(isinstance(y.ctx, ast.Load) for y in subs) and not rebinds and not self._mutates(st.body, seq):
                     el = f"{j}__el"
 
                     class _R(ast.NodeTransformer):
